@@ -18,7 +18,8 @@ contract parameters threading the generator state `g`; `GMQGen.RngOK` states wha
 Column level (this file): the generated rounding branch returns the shuffle of the model's `Synth.column counts total pick` for the
 `pick` that was drawn, which is an admissible outcome (`pickOK`) — so the `synthetic_col` theorems of `Properties/C11.lean` hold for
 the GENERATED code (`gen_col_length`, `gen_col_in_domain`, `gen_col_round`, `gen_col_colOK`).
-Table level: `Proofs/GMQSynthTable.lean` (see the end of this file).
+Table level: `gen_syntheticFrame` (any mode, under `hlen`), `gen_syntheticFrame_sample`, and for the rounding mode — without any
+per-slice hypothesis — `gen_synth_round`, `gen_synth_in_domain`, `gen_synth_support`, `gen_synth_clique_error(_marginal)`.
 -/
 namespace PGM.C11.GMQ
 open PGM PGM.Synth PGM.GMQGen
@@ -106,10 +107,9 @@ end column
 performs — first `order[0]` unconditionally, then every later column of the REVERSED elimination order conditioned on
 `proj = tuple(used ∩ ⋃{cl : col ∈ cl})` — as the model's `ColSpec`s: column position, conditioning positions, size, and the slice
 `marg[key]` of `self.project(proj + (col,)).datavector(flatten=False)`.  `GroupbyOK` is the group-by contract (sorted distinct keys,
-ascending row labels).  The hypothesis `hlen` (every call of `synthetic_col` returns as many values as asked for — pandas raises
-otherwise) holds in sampling mode by `RngOK` (`gen_syntheticFrame_sample`), and in rounding mode for slices of positive mass
-(`gen_col_length`); discharging it for the slices a rounding run actually uses needs the support induction (a key occurs only if
-its slice has positive mass), which is NOT done here — the rounding-mode statement keeps `hlen` as a hypothesis. -/
+ascending row labels).  The hypothesis `hlen` (every call of `synthetic_col` returns as many values as asked for — pandas raises otherwise) holds in sampling
+mode by `RngOK` (`gen_syntheticFrame_sample`); in rounding mode it holds for slices of positive mass only (`gen_col_length`), and the
+section "ROUNDING mode" below removes it by the support induction (`gen_synth_round`). -/
 section table
 variable {G : Type}
 
